@@ -71,6 +71,9 @@ fn c09_one(dir: &std::path::Path, is_key: bool, len: usize, seed: u64) -> Result
         put(&mut m, &mut model, &s1k, s1v.clone())?;
         put(&mut m, &mut model, &xk, pat(seed ^ 4, 21))?;
         put(&mut m, &mut model, &s2k, s2v.clone())?;
+        // a filler brings the end of the value file beyond 16 KiB: the overwrite below moves X's value
+        // there, its offset needs one more byte and a key record that fills its slot has to move
+        put(&mut m, &mut model, b"filler", pat(seed ^ 9, 17_000))?;
         verify(&mut m, &model, "after storing the entry between two sentinels")?;
         checks += 3;
         // overwrite the entry's value so that its key record is rewritten; delete and re-insert
@@ -1033,7 +1036,48 @@ fn c14_type<T: Kt>(dir: &std::path::Path, max_len: usize, evals: &mut u64) -> Re
     // values: valid UTF-8 and invalid UTF-8
     let vals: Vec<Vec<u8>> = vec![b"plain".to_vec(), vec![0xFF, 0xFE, b'x'], "grüße".as_bytes().to_vec(), vec![], vec![b'a', 0xC3]];
     let lossy = |v: &Vec<u8>| String::from_utf8_lossy(v).to_string();
-    let p = Params::buckets(8);
+    // one bucket: every key is in one chain, so the stored-key comparison decides every lookup
+    let p = Params::buckets(1);
+    // batches whose values push the value file across 16 KiB while keys sit on slot-class edges
+    if matches!(kt, KtId::Bytes | KtId::Str) {
+        clear_dir(dir);
+        let (db, mut m) = match open_map::<T>(dir, MAP_NAME, &p) {
+            Out::Ok(x) => x,
+            o => return Err(("open".into(), format!("open {}", o.failed().unwrap_or_default()))),
+        };
+        let ek: Vec<Vec<u8>> = vec![b"edge-key-11".to_vec(), b"edge-key10".to_vec(), b"edge-key-of-18-byt".to_vec(), b"edge-key-of-19-byte".to_vec()];
+        let mut model: BTreeMap<Vec<u8>, Vec<u8>> = BTreeMap::new();
+        for round in 0..4usize {
+            *evals += 1;
+            let sizes = [[10usize, 20, 30, 40], [9000, 50, 7000, 60], [70, 9500, 80, 8000], [12000, 11000, 90, 100]][round];
+            let vals2: Vec<Vec<u8>> = (0..4).map(|i| pat(round as u64 * 4 + i as u64, sizes[i])).collect();
+            let order = [[2usize, 0, 3, 1], [1, 3, 0, 2], [3, 2, 1, 0], [0, 1, 2, 3]][round];
+            let pairs: Vec<(&[u8], &[u8])> = order.iter().map(|i| (&ek[*i][..], &vals2[*i][..])).collect();
+            for (k, v) in &pairs {
+                model.insert(k.to_vec(), v.to_vec());
+            }
+            let r = guard(|| m.bulk_put(&pairs));
+            if r != Out::Ok(()) {
+                return Err(("bulk_put".into(), format!("{}: bulk_put of large values {}", kt.name(), r.failed().unwrap_or_default())));
+            }
+            check_state(&mut m, &ek, &model, kt, "bulk_put of values that move across 16 KiB")?;
+            let ks: Vec<&[u8]> = ek.iter().map(|k| &k[..]).collect();
+            let exp: Vec<Option<Vec<u8>>> = ek.iter().map(|k| model.get(k).cloned()).collect();
+            if guard(|| m.bulk_get(&ks)) != Out::Ok(exp) {
+                return Err(("bulk_get".into(), format!("{}: bulk_get after large bulk_put differs from the element-wise gets", kt.name())));
+            }
+        }
+        let ks: Vec<&[u8]> = vec![&ek[1][..], &ek[3][..]];
+        let exp: Vec<Option<Vec<u8>>> = vec![model.remove(&ek[1]), model.remove(&ek[3])];
+        if guard(|| m.bulk_delete(&ks)) != Out::Ok(exp) {
+            return Err(("bulk_delete".into(), format!("{}: bulk_delete after large bulk_put differs from the element-wise deletes", kt.name())));
+        }
+        check_state(&mut m, &ek, &model, kt, "bulk_delete after large batches")?;
+        let _ = guard_plain(move || {
+            drop(m);
+            drop(db);
+        });
+    }
     let batches_rep = perms_upto(4, max_len, true);
     let batches_norep = perms_upto(4, max_len.min(4), false);
     for presence in 0..16u32 {
